@@ -33,8 +33,10 @@ def build(ctx):
     return binp if ok else None
 
 
-def world(kinds_per_thread):
-    """kinds_per_thread: list (per thread) of lists of call kinds -> (init string, progs string, description)"""
+def world(kinds_per_thread, interleave=False):
+    """kinds_per_thread: list (per thread) of lists of call kinds -> (init string, progs string, description);
+    interleave: the pre-existing entries lie in the file as a parallel recording run leaves them (A1, B1, A2, ...)
+    instead of test by test"""
     init, progs = [], []
     for ti, kinds in enumerate(kinds_per_thread):
         calls = []
@@ -55,6 +57,8 @@ def world(kinds_per_thread):
                 init.append((slot, val + 500))
                 calls.append((slot, val, 1, 1))
         progs.append(calls)
+    if interleave:
+        init.sort(key=lambda e: (e[0] % 100, e[0] // 100))
     init_s = ','.join('%d:%d' % e for e in init) or '-'
     progs_s = ';'.join(','.join('%d:%d:%d:%d' % c for c in p) or '-' for p in progs)
     return init_s, progs_s, init, progs
@@ -130,6 +134,11 @@ def run(ctx):
     ops, meta = [], {}
     for w in worlds:
         i_s, p_s, init, progs = world(w)
+        ops.append('conc %s %s all' % (i_s, p_s))
+        meta[(i_s, p_s)] = (init, progs, w)
+    # files recorded by an earlier PARALLEL run: the entries of the tests are interleaved (A1, B1, A2, B2)
+    for w in [[['match', 'match'], ['match', 'match']], [['match', 'update'], ['update', 'match']], [['match', 'match', 'create'], ['mismatch', 'match']]]:
+        i_s, p_s, init, progs = world(w, interleave=True)
         ops.append('conc %s %s all' % (i_s, p_s))
         meta[(i_s, p_s)] = (init, progs, w)
     rc, lines, tail = core.run_raw(ctx, binp, 'TestVerifSched', ops, env={'VERIF_MAXRUNS': '4000' if ctx.tier == 'quick' else '60000'}, timeout=3000)
